@@ -20,6 +20,14 @@ def run(tier):
     probes = {p["name"]: p for p in cf.probes()}
     meta = {m["name"]: m for m in exp["probes"]}
     ck.require(all(n in probes for n in meta), "every generated probe alias was evaluated by the driver")
+    n_auto = 0
+    for n, p in probes.items():
+        if n.startswith("AUTO_"):
+            # AUTO_<Adt>_<handle>_<payload>_<ctx>: instantiated by the driver for every local ADT with an Opaquable impl
+            parts = n.split("_")
+            meta[n] = {"name": n, "wrapper": "gen:" + "_".join(parts[1:-3]), "handle": parts[-3], "payload": parts[-2], "ctx": parts[-1]}
+            n_auto += 1
+    ck.floor("automatic probes of generated Opaquable ADTs", n_auto, 400)
     for n, p in probes.items():
         if "error" in p:
             ck.broken.append("probe %s: %s" % (n, p["error"]))
